@@ -55,7 +55,10 @@ class FakeFile(object):
             if isinstance(k, tuple):
                 # ('boundary', j): one of the boundary offsets of the line in flight
                 n = len(self.buf)
-                k = [0, 1, 2, n // 2, n - 2, n - 1, n][k[1]]
+                if k[0] == 'dense':
+                    k = [0, 1, 2, 3, n // 4, n // 2, 3 * n // 4, n - 3, n - 2, n - 1, n][k[1]]
+                else:
+                    k = [0, 1, 2, n // 2, n - 2, n - 1, n][k[1]]
             fs.files[self.name] += self.buf[:k]
             self.buf = ''
             raise Crash()
